@@ -13,7 +13,7 @@ pub static DEF: PropertyDef = PropertyDef {
     level: "exploration",
     rule: "generated programs with assignments before, between and after line ends (glue deciding whether look-ahead is kept), inside functions called mid-line, tunnels and choice \
            bodies, plus corpus programs x seeded histories in which several observer peers are added/removed at arbitrary points on shared and distinct variables, the host assigns \
-           variables between continues, and the instance is reset, saved, loaded and crash-restored. Every continue is bracketed by polls of all globals. Oracle over the recorded \
+           variables between continues, a third of the histories finish lines in time-limited slices (one outermost continue = all its slices), and the instance is reset, saved, loaded and crash-restored. Every continue is bracketed by polls of all globals. Oracle over the recorded \
            notification history: for each registration (observer, variable) active during a completed continue: value changed => exactly one notification carrying the value polled \
            after the continue; unchanged => at most one, carrying that value; no notification for a pair that is not registered; all notifications of a continue come after its last \
            external-function call; a host assignment notifies each registered observer exactly once, immediately, with the assigned value; removals never panic. \
@@ -24,7 +24,7 @@ pub static DEF: PropertyDef = PropertyDef {
     exhaustive_note: "none (sampled programs and histories)",
     generate,
     execute,
-    must_hit: &["fault.observer.notified_after_unhandled_error_and_reset", "fault.observer.change_notified", "fault.observer.removed_then_silent", "fault.observer.setvar_notified", "fault.observer.after_reset_notified", "fault.observer.after_restore_notified", "probe.snapshot_restored", "fault.observer.unchanged_continue"],
+    must_hit: &["fault.observer.notified_after_unhandled_error_and_reset", "fault.observer.change_notified", "fault.observer.removed_then_silent", "fault.observer.setvar_notified", "fault.observer.after_reset_notified", "fault.observer.after_restore_notified", "probe.snapshot_restored", "fault.observer.unchanged_continue", "fault.slice.notified_in_sliced_continue"],
     timeout_s: 30,
     hang_class: None,
     sub_builds: &[],
@@ -49,6 +49,7 @@ fn generate(corpus: &Corpus, tier: Tier, run: u64, rng: &mut Rng) -> Option<Case
     };
     let globals = &prog.info.globals;
     let mut ops = Vec::new();
+    let sliced = rng.chance(1, 3);
     for _ in 0..beats {
         // peer churn
         let n = rng.below(3);
@@ -86,7 +87,12 @@ fn generate(corpus: &Corpus, tier: Tier, run: u64, rng: &mut Rng) -> Option<Case
         }
         let k = 1 + rng.below(4);
         for _ in 0..k {
-            ops.push(Op::Continue);
+            if sliced && rng.chance(1, 2) {
+                // one outermost continue spread over several time-limited calls (virtual clock)
+                ops.push(Op::ContinueSliced { pauses: vec![1 + rng.below(8) as u32], finish_plain: rng.chance(1, 3), repeat_last: true });
+            } else {
+                ops.push(Op::Continue);
+            }
         }
         ops.push(Op::Choose(rng.below(5) as u32));
     }
@@ -199,7 +205,13 @@ fn execute(case: &Case) -> CaseResult {
             _ => {}
         }
         match op {
-            Op::Continue if could => {
+            Op::Continue | Op::ContinueSliced { .. } if could => {
+                if matches!(op, Op::ContinueSliced { .. }) {
+                    res.stats.inc("fault.slice.continue_sliced");
+                    if !calls.is_empty() {
+                        res.stats.inc("fault.slice.notified_in_sliced_continue");
+                    }
+                }
                 let after = poll(&h);
                 if !matches!(r, Res::Ok(_)) {
                     if matches!(&r, Res::Err(_, m) if m.contains("Ink had")) {
